@@ -40,6 +40,12 @@ func (s *ShardSystem) Apply(raw json.RawMessage) []seqx.Viol {
 	if exp.Reject {
 		tag = " expect-reject"
 	}
+	if exp.Reject && s.In.Cfg.Backend == "mem" {
+		// The in-memory backend has no rollback (its Write applies puts directly):
+		// the properties scope it to histories of successful batches, so a batch the
+		// model rejects is not issued on it at all.
+		return nil
+	}
 	fmt.Fprintf(os.Stderr, "@@J-APPLY %s%s\n", op.Name, tag)
 	got := s.In.ApplySettled(op)
 	if got.Err != nil {
